@@ -137,3 +137,59 @@ func VerifC07_CsHistory() {
 		verifAssert((e != nil) == (model.find(n) != nil), "C07/cached-set-equals-model-after-evictions")
 	}
 }
+
+// Scripted shape: three insertions over names in prefix relation (/a, /a/b, /a/b/c) and siblings (/a/c, /d),
+// capacity 1..2, an optional exact-name hit in between, then an exact lookup of every name ever inserted and the
+// reported size.  This reaches what the 4-operation history over one-component names cannot: eviction of a
+// longer name while a shorter one on the same branch stays cached (and the other way round).
+func VerifC07_Scripted() {
+	universe := []string{"/a", "/a/b", "/a/b/c", "/a/c", "/d"}
+	csReplacementPolicy = "lru"
+	csAdmit, csServe = true, true
+	model := &verifCsModel{cap: 1 + verifChoice("capacity", 2)}
+	csCapacity = model.cap
+	cs := NewPitCS(func(PitEntry) {})
+	var used []enc.Name
+	nins := verifParam("inserts", 3)
+	for k := 0; k < nins; k++ {
+		n, _ := enc.NameFromStr(universe[verifChoice("name", len(universe))])
+		wire := verifC07Data(n, byte(k+1))
+		fresh := time.Second
+		d := &spec.Data{NameV: n, MetaInfo: &spec.MetaInfo{FreshnessPeriod: &fresh}}
+		used = append(used, n)
+		verifNoPanic("C07/insert-no-panic", func() { cs.InsertData(d, wire) })
+		model.insert(n, wire, time.Now().Add(fresh))
+		verifAssert(cs.CsSize() == len(model.items), "C07/size-equals-model")
+		if k == 0 && verifBool("hit") {
+			// an exact-name hit on the first entry makes it the most recently used
+			e := cs.FindMatchingDataFromCS(&spec.Interest{NameV: n})
+			verifAssert(e != nil, "C07/cached-unevicted-fresh-data-found-by-exact-lookup")
+			model.clock++
+			model.find(n).touch = model.clock
+		}
+	}
+	for _, n := range used {
+		var e CsEntry
+		verifNoPanic("C07/lookup-no-panic", func() { e = cs.FindMatchingDataFromCS(&spec.Interest{NameV: n, MustBeFreshV: true}) })
+		it := model.find(n)
+		verifAssert((e != nil) == (it != nil), "C07/cached-set-equals-model-after-evictions")
+		if e != nil && it != nil {
+			_, wire, err := e.Copy()
+			verifAssert(err == nil, "C07/returned-entry-decodes")
+			verifAssertBytesEq(wire, it.wire, "C07/returned-bytes-are-the-most-recently-inserted")
+			model.clock++
+			it.touch = model.clock
+		}
+	}
+	// a prefix lookup from the top of the branch finds something iff anything below /a is cached
+	top, _ := enc.NameFromStr("/a")
+	e := cs.FindMatchingDataFromCS(&spec.Interest{NameV: top, CanBePrefixV: true})
+	any := false
+	for _, it := range model.items {
+		if top.IsPrefix(it.name) {
+			any = true
+		}
+	}
+	verifAssert((e != nil) == any, "C07/prefix-lookup-finds-cached-data-under-the-prefix")
+	verifAssert(cs.CsSize() == len(model.items), "C07/size-equals-model")
+}
